@@ -29,8 +29,16 @@ def seedcount():
     still=[m['id'] for m in ms if not m.get('detected')]
     return ("Of %d changes, %d were caught by the quick check as it stood when the change arrived; %d were missed at first (%s; C20-a was\nanswered with a machinery failure, exit 2) and led to the strengthenings recorded in the `strengthening`\nfield of their `meta.json` and in 11.1. %s (each is run twice by `selftest_mutants.sh seeded_`)."
             %(len(ms),len(ms)-len(miss),len(miss),', '.join(miss),'All %d are caught now, every time'%len(ms) if not still else 'Still missed: '+', '.join(still)))
+def neutral():
+    out=["| control | origin | what it changes (behaviour preserved) | checks run against it | outcome |","|---|---|---|---|---|"]
+    for d in sorted(glob.glob(V+'/neutral/*/meta.json')):
+        m=json.load(open(d))
+        checks=m['checks']
+        cs='all 20' if len(checks)==20 else ' '.join(checks)
+        out.append("| %s | %s | %s | %s | %s |"%(m['id'],'sub-agent' if m['origin'].startswith('sub-agent') else 'by hand',m['what'],cs,'silent' if m['all_silent'] else 'ALARM: '+str({k:v for k,v in m['quick_check_exit'].items() if v})))
+    return "\n".join(out)
 s=open(V+'/DESIGN.md').read()
-for name,fn in (('sizes',sizes),('seeded',seeded),('seedcount',seedcount)):
+for name,fn in (('sizes',sizes),('seeded',seeded),('seedcount',seedcount),('neutral',neutral)):
     pat=re.compile(r'(<!-- BEGIN:%s -->\n).*?(<!-- END:%s -->)'%(name,name),re.S)
     if pat.search(s):
         s=pat.sub(lambda m: m.group(1)+fn()+"\n"+m.group(2),s)
